@@ -177,7 +177,7 @@ func history(r *ev.Run, c *ev.Case, hi int, slowCA ...time.Duration) {
 		if lapse && run < 3 {
 			outcome = "ok"
 		}
-		signer := &gsrig.Signer{Agent: ag, NCerts: 1 + rng.Intn(4), NonCert: rng.Intn(8) == 0}
+		signer := &gsrig.Signer{Agent: ag, NCerts: 1 + rng.Intn(4), NonCert: rng.Intn(6) == 0, NonCertPos: rng.Intn(4)}
 		for k := rng.Intn(6); k > 0; k-- {
 			signer.Comments = append(signer.Comments, []string{"", "touch", "c-" + gen.Ident(rng, 3)}[rng.Intn(3)])
 		}
